@@ -71,6 +71,10 @@ func checkWriterTable(m *Module, r *Report, rule, typ, field string, includeMapO
 		seen[key] = true
 		if reason, ok := allowed[name]; ok {
 			r.ok(rule, key, m.Pos(w.In.Pos()), "allowed: "+reason)
+		} else if via := exclusiveHelperOf(m, w.Fn, func(f *ssa.Function) bool { _, ok := allowed[funcName(f)]; return ok }); via != "" {
+			// a helper that only allowed writers call is part of them (extracting statements into a
+			// function adds no new way to write the field)
+			r.ok(rule, key, m.Pos(w.In.Pos()), "helper called only from allowed writer(s): "+via)
 		} else {
 			r.viol(rule, key, m.Pos(w.In.Pos()), fmt.Sprintf("%s of %s.%s outside the confirmed writer table %v", w.Kind, short, field, sortedKeys(allowed)))
 		}
@@ -139,4 +143,147 @@ func guardVerdict(m *Module, r *Report, rule, key string, fn *ssa.Function, sink
 		r.viol(rule, key, m.Pos(sink.Pos()), res.String())
 	}
 	return res.OK
+}
+
+var callersCache = map[*Module]map[*ssa.Function][]callSite{}
+var addrTakenCache = map[*Module]map[*ssa.Function]bool{}
+
+func moduleCallers(m *Module) (map[*ssa.Function][]callSite, map[*ssa.Function]bool) {
+	if c, ok := callersCache[m]; ok {
+		return c, addrTakenCache[m]
+	}
+	c, a := buildCallers(m)
+	callersCache[m], addrTakenCache[m] = c, a
+	return c, a
+}
+
+// exclusiveHelperOf: fn is not used as a function value and every static caller of fn (transitively,
+// through other such helpers, up to depth 4) satisfies isRoot. Returns the names of the roots reached,
+// or "" when fn has no callers, escapes, or has a caller outside the roots.
+func exclusiveHelperOf(m *Module, fn *ssa.Function, isRoot func(*ssa.Function) bool) string {
+	callers, addrTaken := moduleCallers(m)
+	roots := map[string]bool{}
+	seen := map[*ssa.Function]bool{}
+	var ok func(f *ssa.Function, depth int) bool
+	ok = func(f *ssa.Function, depth int) bool {
+		if seen[f] {
+			return true
+		}
+		seen[f] = true
+		if addrTaken[f] || depth > 4 {
+			return false
+		}
+		sites := callers[f]
+		if len(sites) == 0 {
+			return false
+		}
+		for _, cs := range sites {
+			c := cs.caller
+			// a closure is judged as part of the function that defines it
+			for c.Parent() != nil {
+				c = c.Parent()
+			}
+			if isRoot(c) {
+				roots[c.Name()] = true
+				continue
+			}
+			if !ok(c, depth+1) {
+				return false
+			}
+		}
+		return true
+	}
+	if !ok(fn, 0) || len(roots) == 0 {
+		return ""
+	}
+	var names []string
+	for n := range roots {
+		names = append(names, n)
+	}
+	sort.Strings(names)
+	return strings.Join(names, ", ")
+}
+
+// liftToRoots: an instruction that sits in a helper which only root functions call (directly or through
+// other such helpers) is represented, for rules about the roots, by the call sites in the roots. Returns
+// the instruction itself when its function is a root, the root call sites when it can be lifted, and
+// nil when some caller is not a root (or the helper escapes as a function value).
+func liftToRoots(m *Module, in ssa.Instruction, isRoot func(*ssa.Function) bool) []ssa.Instruction {
+	callers, addrTaken := moduleCallers(m)
+	top := func(f *ssa.Function) *ssa.Function {
+		for f.Parent() != nil {
+			f = f.Parent()
+		}
+		return f
+	}
+	var out []ssa.Instruction
+	seen := map[*ssa.Function]bool{}
+	var lift func(x ssa.Instruction, depth int) bool
+	lift = func(x ssa.Instruction, depth int) bool {
+		f := x.Parent()
+		if isRoot(top(f)) {
+			out = append(out, x)
+			return true
+		}
+		if depth > 4 || addrTaken[f] || seen[f] {
+			return false
+		}
+		seen[f] = true
+		sites := callers[f]
+		if len(sites) == 0 {
+			return false
+		}
+		for _, cs := range sites {
+			ci, ok := cs.in.(ssa.Instruction)
+			if !ok || !lift(ci, depth+1) {
+				return false
+			}
+		}
+		return true
+	}
+	if !lift(in, 0) {
+		return nil
+	}
+	return out
+}
+
+// fnFamily: fn together with the helpers it owns — functions of the same package that fn (or another
+// member of the family) calls statically and that nobody outside the family calls or takes the value
+// of. Rules stated about "what fn does" are evaluated over the family, so moving statements of fn
+// into a private helper does not change the verdict.
+func fnFamily(m *Module, fn *ssa.Function) []*ssa.Function {
+	callers, addrTaken := moduleCallers(m)
+	fam := map[*ssa.Function]bool{fn: true}
+	order := []*ssa.Function{fn}
+	top := func(f *ssa.Function) *ssa.Function {
+		for f.Parent() != nil {
+			f = f.Parent()
+		}
+		return f
+	}
+	for changed := true; changed; {
+		changed = false
+		for _, f := range append([]*ssa.Function{}, order...) {
+			for _, wf := range withAnon(f) {
+				for _, call := range callsIn(wf) {
+					g, _ := calleeOf(call.Common())
+					if g == nil || g.Blocks == nil || fam[g] || addrTaken[g] || fnPkg(g) == nil || fnPkg(fn) == nil || fnPkg(g).Path() != fnPkg(fn).Path() {
+						continue
+					}
+					own := true
+					for _, cs := range callers[g] {
+						if !fam[top(cs.caller)] {
+							own = false
+						}
+					}
+					if own {
+						fam[g] = true
+						order = append(order, g)
+						changed = true
+					}
+				}
+			}
+		}
+	}
+	return order
 }
